@@ -1383,6 +1383,7 @@ func (client *client) pollInflights() (cont bool, err error) {
 			client.pl.markUsedLocked(id)
 			client.write(gmqtt.MessageToPublish(m.Message, client.version))
 		case *queue.Pubrel:
+			client.pl.markUsedLocked(id)
 			client.write(&packets.Pubrel{PacketID: id})
 		}
 	}
